@@ -482,8 +482,40 @@ def _judge(violations, bump, b, m, tag, comp, cands, got, res, b_is_mark, strict
                 "lookup": res["lookup"], "kind": res["kind"]}})
 
 
+def _classed_mark_without_paired_anchor(case, b):
+    cats = case["ufo"]["lib"].get("public.openTypeCategories")
+    g = next(x for x in case["ufo"]["glyphs"] if x["name"] == b)
+    plain = set()
+    for x in case["ufo"]["glyphs"]:
+        for a in x["anchors"]:
+            im, key, num = parse_anchor(a["name"])
+            if not im and key:
+                plain.add(key)
+    own_mark_keys = [parse_anchor(a["name"])[1] for a in g["anchors"] if parse_anchor(a["name"])[0]]
+    is_mark_class = (cats or {}).get(b) == "mark"
+    if cats is None:
+        import re
+        mm = re.search(r"GlyphClassDef ([^;]*);", case["ufo"]["features"])
+        parts = [p.strip() for p in mm.group(1).split(",")] if mm else []
+        is_mark_class = len(parts) > 2 and b in parts[2].strip("[] ").split()
+    return is_mark_class and not any(k in plain for k in own_mark_keys)
+
+
 def classify(v, case):
     det = v["detail"]
+    if v["mech"] == "no_gpos_but_matching_anchors" and case["gdef_mode"] != "none":
+        # the listed mechanism below, in a font where the attachments it loses are the ONLY ones:
+        # every glyph whose plain anchor a mark could attach to is such a classed mark
+        bases = set()
+        for b in case["ufo"]["glyphs"]:
+            pk = {parse_anchor(a["name"])[1] for a in b["anchors"]
+                  if not parse_anchor(a["name"])[0] and parse_anchor(a["name"])[2] is None}
+            for m in case["ufo"]["glyphs"]:
+                mk_ = {parse_anchor(a["name"])[1] for a in m["anchors"] if parse_anchor(a["name"])[0]}
+                if pk & mk_:
+                    bases.add(b["name"])
+        if bases and all(_classed_mark_without_paired_anchor(case, b) for b in bases):
+            return "classed_mark_without_paired_mark_anchor_is_no_base"
     if v["mech"] == "missing_attachment" and not det.get("hidden_by_flags"):
         # a glyph classed 'mark' whose own '_x' anchors have no counterpart anywhere is dropped from
         # the writer's mark set; being classed mark it is not a mark-to-base base either, so marks
